@@ -46,9 +46,10 @@ pub enum Op {
     Insert(usize),
     Remove(i64),
     Reserve(usize),
-    Extend(Vec<usize>),
+    /// children, iterator kind (0: exact size hint, 1: no upper bound, 2: upper bound too large by two)
+    Extend(Vec<usize>, u8),
     /// rebuild the (still pristine) group through its `FromIterator` impl
-    FromIter(Vec<usize>),
+    FromIter(Vec<usize>, u8),
 }
 
 pub struct View {
